@@ -133,6 +133,7 @@ func twoChangers(a, b []string, bound int) *vsched.Scenario {
 			}
 			handles[0] = p.Subscribe(mk(0))
 			handles[1] = p.Subscribe(mk(1))
+			handles[9] = p.Subscribe(mk(9)) // bystander: never touched by the changers
 			var wg sync.WaitGroup
 			var mu sync.Mutex
 			run := func(name string, script []string) {
@@ -166,7 +167,7 @@ func twoChangers(a, b []string, bound int) *vsched.Scenario {
 			if len(r.Panics) > 0 {
 				return fs
 			}
-			live := map[int]bool{0: true, 1: true}
+			live := map[int]bool{0: true, 1: true, 9: true}
 			for _, op := range append(append([]string{}, a...), b...) {
 				var id int
 				fmt.Sscanf(op[len(op)-1:], "%d", &id)
